@@ -129,6 +129,15 @@ class Interp:
             return (min if "min" in name else max)(vals)
         if name == "len" and len(e.args) == 1:
             return len(self.ev(e.args[0]))
+        if isinstance(e.func, ast.Attribute) and e.func.attr == "indices" and len(e.args) == 1 and not e.keywords:
+            v = self.ev(e.func.value)
+            if isinstance(v, slice):
+                try:
+                    return v.indices(self.ev(e.args[0]))
+                except (TypeError, ValueError):
+                    raise GuardTypeError(norm(e))
+        if name == "range" and 1 <= len(e.args) <= 3 and not e.keywords:
+            return range(*[self.ev(a) for a in e.args])
         if name in HELPERS and not e.keywords:
             fn = HELPERS[name]
             params = [a.arg for a in fn.args.args]
@@ -140,6 +149,24 @@ class Interp:
                     return None
                 raise AnalysisError(self.rule, f"helper `{name}` ends with {r[0]} when called from a guard")
         raise AnalysisError(self.rule, f"call `{norm(e)}` not understood in a guard")
+
+    def ev_BinOp(self, e):
+        a, b = self.ev(e.left), self.ev(e.right)
+        ops = {ast.Add: lambda x, y: x + y, ast.Sub: lambda x, y: x - y, ast.Mult: lambda x, y: x * y, ast.FloorDiv: lambda x, y: x // y,
+               ast.Mod: lambda x, y: x % y}
+        if type(e.op) not in ops:
+            raise AnalysisError(self.rule, f"operator in `{norm(e)}` not understood in a guard")
+        try:
+            return ops[type(e.op)](a, b)
+        except (TypeError, ZeroDivisionError):
+            raise GuardTypeError(norm(e))
+
+    def ev_Subscript(self, e):
+        v, i = self.ev(e.value), self.ev(e.slice)
+        try:
+            return v[i]
+        except (TypeError, IndexError, KeyError):
+            raise GuardTypeError(norm(e))
 
     def ev_IfExp(self, e):
         return self.ev(e.body) if self.ev(e.test) else self.ev(e.orelse)
@@ -199,6 +226,14 @@ def run_validator(stmts: list[ast.stmt], env: dict, rule: str, depth: int = 0):
             return ("break", None)
         if isinstance(s, ast.Assign) and len(s.targets) == 1 and isinstance(s.targets[0], ast.Name):
             it.env[s.targets[0].id] = it.ev(s.value)
+            continue
+        if isinstance(s, ast.Assign) and len(s.targets) == 1 and isinstance(s.targets[0], ast.Tuple) \
+                and all(isinstance(t, ast.Name) for t in s.targets[0].elts):
+            vals = it.ev(s.value)
+            if not isinstance(vals, (tuple, list)) or len(vals) != len(s.targets[0].elts):
+                raise AnalysisError(rule, f"unpacking `{norm(s)[:60]}` in a validator")
+            for t, v in zip(s.targets[0].elts, vals):
+                it.env[t.id] = v
             continue
         raise AnalysisError(rule, f"validator statement not understood: `{norm(s)[:60]}`")
     return ("fall", None)
